@@ -715,3 +715,522 @@ def translate_bsearch(repo):
         out.append("(* %s.%s, %s (sha256 %s) *)" % (cls, meth, f, hashlib.sha256(src.encode()).hexdigest()[:16]))
         out.append(_tr_bsearch(inner[0], tag))
     return "\n".join(out)
+
+# =====================================================================================================================
+# deterministic_allocation.py: root_n_serial_dictatorship
+# =====================================================================================================================
+def translate_rootn(repo):
+    """root_n_serial_dictatorship (deterministic_allocation.py) -> Gallina.
+    Recognised shape: n, m from profile.shape; np.argsort(profile, axis=1)[.view(np.ndarray)]; a counter array np.zeros(m); a result
+    array np.full(n, np.nan) (NaN is written -1); `for agent in range(n): for alt in ranked[agent]: if cnt[alt] < np.sqrt(n): <updates>; break`;
+    a test `x == np.nan` is the constant False (IEEE: NaN compares unequal to everything), so a statement guarded by it is dead;
+    `cnt < np.sqrt(n)` on a non-negative integer counter is written cnt * cnt < n."""
+    src = open(os.path.join(repo, "socialchoicekit", "deterministic_allocation.py")).read()
+    fn = _find(ast.parse(src).body, ast.FunctionDef, "root_n_serial_dictatorship")
+    if [a.arg for a in fn.args.args] != ["profile"]: _fail(fn, "root_n_serial_dictatorship(profile) expected")
+    def is_name(e, n): return isinstance(e, ast.Name) and e.id == n
+    def shape(e):
+        if (isinstance(e, ast.Subscript) and isinstance(e.value, ast.Attribute) and e.value.attr == "shape" and is_name(e.value.value, "profile")
+                and _intconst(e.slice) in (0, 1)): return _intconst(e.slice)
+        return None
+    dims = {}; ranked = cnt = alloc = None; loop = None; ret = None
+    for st in _body(fn):
+        if isinstance(st, ast.Assign) and len(st.targets) == 1 and isinstance(st.targets[0], ast.Name):
+            t, v = st.targets[0].id, st.value
+            if loop is not None: _fail(st, "assignment after the main loop")
+            if shape(v) is not None:
+                dims[t] = shape(v); continue
+            w = v
+            if isinstance(w, ast.Call) and isinstance(w.func, ast.Attribute) and w.func.attr == "view" and len(w.args) == 1 and _is_np(w.args[0], "ndarray"): w = w.func.value
+            if (isinstance(w, ast.Call) and _is_np(w.func, "argsort") and len(w.args) == 1 and is_name(w.args[0], "profile")
+                    and len(w.keywords) == 1 and w.keywords[0].arg == "axis" and _intconst(w.keywords[0].value) == 1):
+                ranked = t; continue
+            if isinstance(v, ast.Call) and _is_np(v.func, "zeros") and len(v.args) == 1 and isinstance(v.args[0], ast.Name) and dims.get(v.args[0].id) == 1 and not v.keywords:
+                cnt = t; continue
+            if (isinstance(v, ast.Call) and _is_np(v.func, "full") and len(v.args) == 2 and isinstance(v.args[0], ast.Name) and dims.get(v.args[0].id) == 0
+                    and _is_np(v.args[1], "nan") and not v.keywords):
+                alloc = t; continue
+            _fail(st, "unrecognised assignment")
+        elif isinstance(st, ast.For):
+            if loop is not None: _fail(st, "one main loop expected")
+            loop = st
+        elif isinstance(st, ast.Return):
+            ret = st
+        else:
+            _fail(st, "unrecognised statement")
+    if None in (ranked, cnt, alloc, loop, ret): _fail(fn, "ranking / counter / allocation / loop / return not all found")
+    N = [k for k, d in dims.items() if d == 0]; M = [k for k, d in dims.items() if d == 1]
+    if len(N) != 1 or len(M) != 1: _fail(fn, "n = profile.shape[0] and m = profile.shape[1] expected once each")
+    N, M = N[0], M[0]
+    if not (isinstance(ret.value, ast.Call) and isinstance(ret.value.func, ast.Attribute) and ret.value.func.attr == "astype" and is_name(ret.value.func.value, alloc)
+            and len(ret.value.args) == 1 and is_name(ret.value.args[0], "int")): _fail(ret, "return allocation.astype(int) expected")
+    # for agent in range(n):
+    if not (isinstance(loop.target, ast.Name) and isinstance(loop.iter, ast.Call) and is_name(loop.iter.func, "range") and len(loop.iter.args) == 1
+            and is_name(loop.iter.args[0], N) and not loop.orelse): _fail(loop, "for agent in range(n) expected")
+    AG = loop.target.id
+    if not loop.body or not isinstance(loop.body[0], ast.For): _fail(loop, "inner loop expected first")
+    inner = loop.body[0]
+    for extra in loop.body[1:]:
+        # if allocation[agent] == np.nan: raise ...   -- NaN == NaN is False: dead statement
+        t = extra.test if isinstance(extra, ast.If) else None
+        dead = (t is not None and isinstance(t, ast.Compare) and len(t.ops) == 1 and isinstance(t.ops[0], ast.Eq) and (_is_np(t.comparators[0], "nan") or _is_np(t.left, "nan"))
+                and not extra.orelse)
+        if not dead: _fail(extra, "only a statement guarded by `== np.nan` (constant False) may follow the inner loop")
+    if not (isinstance(inner.target, ast.Name) and isinstance(inner.iter, ast.Subscript) and is_name(inner.iter.value, ranked) and is_name(inner.iter.slice, AG)
+            and not inner.orelse and len(inner.body) == 1 and isinstance(inner.body[0], ast.If) and not inner.body[0].orelse):
+        _fail(inner, "for alternative in ranked_profile[agent]: if ...: expected")
+    ALT = inner.target.id; cond = inner.body[0]
+    def cnt_at(e): return isinstance(e, ast.Subscript) and is_name(e.value, cnt) and is_name(e.slice, ALT)
+    t = cond.test
+    if not (isinstance(t, ast.Compare) and len(t.ops) == 1 and isinstance(t.ops[0], (ast.Lt, ast.LtE)) and cnt_at(t.left) and isinstance(t.comparators[0], ast.Call)
+            and _is_np(t.comparators[0].func, "sqrt") and len(t.comparators[0].args) == 1 and is_name(t.comparators[0].args[0], N)):
+        _fail(t, "allocation_count[alternative] < np.sqrt(n) expected")
+    c = "nth (Z.to_nat %s) %s O" % (ALT, cnt)
+    test = "(%s * %s %s %s)%%nat" % (c, c, "<?" if isinstance(t.ops[0], ast.Lt) else "<=?", N)
+    body = list(cond.body)
+    if not body or not isinstance(body[-1], ast.Break): _fail(cond, "the guarded block must end in break")
+    new_cnt, new_alloc = cnt, alloc
+    for st in body[:-1]:
+        if isinstance(st, ast.AugAssign) and isinstance(st.op, ast.Add) and cnt_at(st.target) and _intconst(st.value) is not None and _intconst(st.value) >= 0:
+            c2 = "nth (Z.to_nat %s) %s O" % (ALT, new_cnt)
+            new_cnt = "(updz %s (Z.to_nat %s) (%s + %d)%%nat)" % (new_cnt, ALT, c2, _intconst(st.value))
+        elif (isinstance(st, ast.Assign) and len(st.targets) == 1 and isinstance(st.targets[0], ast.Subscript) and is_name(st.targets[0].value, alloc)
+              and is_name(st.targets[0].slice, AG) and is_name(st.value, ALT)):
+            new_alloc = "(updz %s %s %s)" % (new_alloc, AG, ALT)
+        else:
+            _fail(st, "unrecognised update in the guarded block")
+    return "\n".join([
+        "(* GENERATED by harness/translate.py from root_n_serial_dictatorship (deterministic_allocation.py, line %d). Do not edit. *)" % fn.lineno,
+        "From Coq Require Import ZArith List Bool.", "Import ListNotations.", "From SCK Require Import ElicitM ElicitRules.", "Local Open Scope Z_scope.", "",
+        "(* NaN in the result array is written -1; `x == np.nan` is the constant false, so the raise it guards is dead code *)",
+        "Definition gen_rootn_sd (profile : list (list Z)) : list Z :=",
+        "  let %s := length profile in" % N,
+        "  let %s := length (nth 0 profile []) in" % M,
+        "  let %s := map rank_list profile in" % ranked,
+        "  fst (fold_left (fun (st : list Z * list nat) (%s : nat) =>" % AG,
+        "         let '(%s, %s) := st in" % (alloc, cnt),
+        "         match find (fun %s => %s) (nth %s %s []) with" % (ALT, test, AG, ranked),
+        "         | Some %s => (%s, %s)" % (ALT, new_alloc, new_cnt),
+        "         | None => (%s, %s)" % (alloc, cnt),
+        "         end) (seq 0 %s) (repeat (-1) %s, repeat O %s))." % (N, N, M), ""])
+
+# ---------------------------------------------------------------------------------------------------------------------
+# flow.py: ford_fulkerson and dfs_path -> Gallina, by a small store-passing compiler for the imperative subset they use.
+#   kinds of Python values:  Z (vertex, capacity), nat (loop index), graph (dict vertex -> list of (vertex, capacity)),
+#   flow (dict (u, v) -> int), adj (list of pairs), path (list of vertices), vis (the `visited` dict, kept as the list of
+#   vertices whose entry is non-zero), opt(...) (value or None)
+# ---------------------------------------------------------------------------------------------------------------------
+class FlowC:
+    def __init__(self, env):
+        self.env = dict(env)      # python name -> kind
+        self.sub = {}             # python name -> Coq text to use when reading it (unwrapped optionals, dict-item values)
+    def kind(self, e):
+        return self.env.get(e.id) if isinstance(e, ast.Name) else None
+    def name(self, n):
+        return self.sub.get(n, n)
+    # ---- expressions of kind Z / pair / list
+    def ex(self, e):
+        if isinstance(e, ast.Name): return self.name(e.id)
+        k = _intconst(e)
+        if k is not None: return str(k) if k >= 0 else "(%d)" % k
+        if isinstance(e, ast.Attribute) and e.attr == "maxsize" and isinstance(e.value, ast.Name) and e.value.id == "sys": return "maxsize"
+        if isinstance(e, ast.Tuple): return "(" + ", ".join(self.ex(x) for x in e.elts) + ")"
+        if isinstance(e, ast.List): return "[" + "; ".join(self.ex(x) for x in e.elts) + "]"
+        if isinstance(e, ast.BinOp):
+            lk = self.lkind(e.left)
+            if isinstance(e.op, ast.Add) and lk in ("adj", "path"): return "(%s ++ %s)" % (self.ex(e.left), self.ex(e.right))
+            if isinstance(e.op, (ast.Add, ast.Sub)) and lk == "Z": return "(%s %s %s)" % (self.ex(e.left), "+" if isinstance(e.op, ast.Add) else "-", self.ex(e.right))
+            _fail(e, "unsupported arithmetic")
+        if isinstance(e, ast.Call) and isinstance(e.func, ast.Name) and e.func.id == "min" and len(e.args) == 2: return "(Z.min %s %s)" % (self.ex(e.args[0]), self.ex(e.args[1]))
+        if isinstance(e, ast.Subscript):
+            k = self.kind(e.value)
+            if k == "graph":
+                key = e.slice
+                if isinstance(key, ast.Name) and ("item:" + e.value.id + ":" + key.id) in self.sub: return self.sub["item:" + e.value.id + ":" + key.id]
+                return "(lookup %s %s)" % (self.name(e.value.id), self.ex(key))
+            if k == "flow":
+                if not (isinstance(e.slice, ast.Tuple) and len(e.slice.elts) == 2): _fail(e, "flow[(u, v)] expected")
+                return "(fget %s %s)" % (self.name(e.value.id), self.ex(e.slice))
+            if k == "path": return "(nth %s %s 0)" % (self.nx(e.slice), self.name(e.value.id))
+            _fail(e, "unsupported subscript")
+        if isinstance(e, ast.IfExp): return "(if %s then %s else %s)" % (self.bx(e.test), self.ex(e.body), self.ex(e.orelse))
+        if isinstance(e, ast.ListComp) and len(e.generators) == 1 and not e.generators[0].ifs:     # [f(w, c) for (w, c) in L]
+            g = e.generators[0]; names = self.pairtarget(g.target)
+            c2 = self.child({names[0]: "Z", names[1]: "Z"})
+            return "(map (fun e_ : Z * Z => %s%s) %s)" % (self.bindpair(names, "e_"), c2.ex(e.elt), self.ex(g.iter))
+        _fail(e, "unsupported expression")
+    def lkind(self, e):
+        if isinstance(e, ast.Name): return self.env.get(e.id)
+        if isinstance(e, ast.List): return "path" if not e.elts or not isinstance(e.elts[0], ast.Tuple) else "adj"
+        if isinstance(e, ast.Subscript) and self.kind(e.value) == "graph": return "adj"
+        return "Z"
+    def nx(self, e):    # nat-valued index expressions
+        if isinstance(e, ast.Name) and self.env.get(e.id) == "nat": return e.id
+        if isinstance(e, ast.BinOp) and isinstance(e.op, ast.Add) and _intconst(e.right) is not None: return "(%s + %d)%%nat" % (self.nx(e.left), _intconst(e.right))
+        _fail(e, "unsupported index")
+    def pairtarget(self, t):
+        if not (isinstance(t, ast.Tuple) and len(t.elts) == 2 and all(isinstance(x, ast.Name) for x in t.elts)): _fail(t, "(a, b) target expected")
+        return [x.id for x in t.elts]
+    def bindpair(self, names, var):
+        return "".join("let %s := %s %s in " % (n, f, var) for n, f in zip(names, ("fst", "snd")) if n != "_")
+    def child(self, extra):
+        c = FlowC(self.env); c.sub = dict(self.sub); c.env.update(extra); return c
+    # ---- boolean expressions
+    def bx(self, t):
+        if isinstance(t, ast.Compare) and len(t.ops) == 1:
+            l, r, op = t.left, t.comparators[0], t.ops[0]
+            if isinstance(l, ast.Subscript) and self.kind(l.value) == "vis" and _intconst(r) == 0 and isinstance(op, (ast.NotEq, ast.Eq)):
+                m = "(memZ %s %s)" % (self.ex(l.slice), self.name(l.value.id))
+                return m if isinstance(op, ast.NotEq) else "(negb %s)" % m
+            ops = {ast.Eq: "(%s =? %s)", ast.NotEq: "(negb (%s =? %s))", ast.Gt: "(%s >? %s)", ast.Lt: "(%s <? %s)", ast.GtE: "(%s >=? %s)", ast.LtE: "(%s <=? %s)"}
+            if type(op) in ops: return ops[type(op)] % (self.ex(l), self.ex(r))
+        if isinstance(t, ast.Call) and isinstance(t.func, ast.Name) and t.func.id == "all" and len(t.args) == 1 and isinstance(t.args[0], ast.ListComp):
+            lc = t.args[0]; g = lc.generators[0]
+            if len(lc.generators) != 1 or g.ifs: _fail(t, "all([cond for (a, b) in L]) expected")
+            names = self.pairtarget(g.target); c2 = self.child({n: "Z" for n in names})
+            return "(forallb (fun e_ : Z * Z => %s%s) %s)" % (self.bindpair(names, "e_"), c2.bx(lc.elt), self.ex(g.iter))
+        _fail(t, "unsupported test")
+    # ---- statements; `fall` is the text returned when control reaches the end of the block (or `continue`)
+    def store(self, tgt, val):
+        """X[k] = val as a rebinding of X"""
+        k = self.kind(tgt.value); X = tgt.value.id
+        if k == "flow": return "let %s := fset %s %s %s in\n" % (X, self.name(X), self.ex(tgt.slice), val)
+        if k == "graph": return "let %s := set_adj %s %s %s in\n" % (X, self.name(X), self.ex(tgt.slice), val)
+        _fail(tgt, "unsupported store")
+    def block(self, stmts, fall, ret, rec=None):
+        if not stmts: return fall
+        s, rest = stmts[0], stmts[1:]
+        more = lambda c=self: c.block(rest, fall, ret, rec)
+        if isinstance(s, ast.Continue): return fall
+        if isinstance(s, ast.Return): return ret(self, s.value)
+        if isinstance(s, ast.Assign) and len(s.targets) == 1:
+            t, v = s.targets[0], s.value
+            if isinstance(t, ast.Subscript) and self.kind(t.value) == "vis":      # visited[x] = 0 / 1
+                X = t.value.id; b = _intconst(v)
+                if b == 1: return "let %s := %s :: %s in\n" % (X, self.ex(t.slice), self.name(X)) + more()
+                if b == 0: return "let %s := removeZ %s %s in\n" % (X, self.ex(t.slice), self.name(X)) + more()
+                _fail(s, "visited[x] = 0 or 1 expected")
+            if isinstance(t, ast.Subscript): return self.store(t, self.ex(v)) + more()
+            if isinstance(t, ast.Name):
+                if isinstance(v, ast.Constant) and v.value is None:
+                    self.env[t.id] = "opt"; return "let %s := None in\n" % t.id + more()
+                if rec is not None and isinstance(v, ast.Call) and isinstance(v.func, ast.Name) and v.func.id == rec["name"]:
+                    call, vis = rec["call"](self, v)
+                    self.env[t.id] = "opt"
+                    return "match %s with None => None | Some (%s, %s) =>\n%s end" % (call, vis, t.id, more())
+                k = self.env.get(t.id)
+                if k == "opt": return "let %s := Some %s in\n" % (t.id, self.ex(v)) + more()
+                self.env[t.id] = self.lkind(v) if not isinstance(v, ast.Subscript) else ("adj" if self.kind(v.value) == "graph" else "Z")
+                return "let %s := %s in\n" % (t.id, self.ex(v)) + more()
+            if isinstance(t, ast.Tuple) and isinstance(v, ast.Name) and v.id in self.sub:       # path, capacity = subpath (after `is not None`)
+                names = self.pairtarget(t); self.env[names[0]] = "path"; self.env[names[1]] = "Z"
+                return "let '(%s, %s) := %s in\n" % (names[0], names[1], self.sub[v.id]) + more()
+            _fail(s, "unsupported assignment")
+        if isinstance(s, ast.AugAssign):
+            t = s.target
+            if isinstance(t, ast.Subscript) and self.kind(t.value) == "flow" and isinstance(s.op, (ast.Add, ast.Sub)):
+                return self.store(t, "(%s %s %s)" % (self.ex(t), "+" if isinstance(s.op, ast.Add) else "-", self.ex(s.value))) + more()
+            if isinstance(t, ast.Subscript) and self.kind(t.value) == "graph" and isinstance(s.op, ast.Add):
+                return self.store(t, "(%s ++ %s)" % (self.ex(t), self.ex(s.value))) + more()
+            _fail(s, "unsupported augmented assignment")
+        if isinstance(s, ast.If):
+            t = s.test
+            if (isinstance(t, ast.Compare) and len(t.ops) == 1 and isinstance(t.ops[0], (ast.IsNot, ast.Is)) and isinstance(t.comparators[0], ast.Constant)
+                    and t.comparators[0].value is None and isinstance(t.left, ast.Name) and self.env.get(t.left.id) == "opt"):
+                X = t.left.id; some = self.child({}); some.sub[X] = X + "_v"; none = self.child({})
+                yes, no = (s.body, s.orelse) if isinstance(t.ops[0], ast.IsNot) else (s.orelse, s.body)
+                return "match %s with\n| Some %s_v => %s\n| None => %s\nend" % (self.name(X), X, some.block(list(yes) + rest, fall, ret, rec), none.block(list(no) + rest, fall, ret, rec))
+            a, b = self.child({}), self.child({})
+            return "if %s then %s\nelse %s" % (self.bx(t), a.block(list(s.body) + rest, fall, ret, rec), b.block(list(s.orelse) + rest, fall, ret, rec))
+        _fail(s, "unsupported statement")
+
+def assigned(stmts):
+    out = []
+    for st in stmts:
+        for n in ast.walk(st):
+            t = None
+            if isinstance(n, ast.Assign): t = n.targets[0]
+            elif isinstance(n, ast.AugAssign): t = n.target
+            if t is None: continue
+            while isinstance(t, ast.Subscript): t = t.value
+            for x in (t.elts if isinstance(t, ast.Tuple) else [t]):
+                if isinstance(x, ast.Name) and x.id not in out: out.append(x.id)
+    return out
+
+def is_name(e, n): return isinstance(e, ast.Name) and e.id == n
+
+def tr_dfs(fn):
+    ps = [a.arg for a in fn.args.args]
+    if len(ps) != 4: _fail(fn, "dfs_path(G, current, sink, visited) expected")
+    G, CUR, SINK, VIS = ps
+    body = _body(fn)
+    loops = [i for i, s in enumerate(body) if isinstance(s, ast.For)]
+    if len(loops) != 1: _fail(fn, "exactly one loop expected in dfs_path")
+    li = loops[0]; loop = body[li]
+    c = FlowC({G: "graph", CUR: "Z", SINK: "Z", VIS: "vis"})
+    def ret(cc, v):       # return (path, cap) / return None, with the visited store threaded out
+        if isinstance(v, ast.Constant) and v.value is None: return "Some (%s, None)" % VIS
+        if isinstance(v, ast.Tuple) and len(v.elts) == 2: return "Some (%s, Some %s)" % (VIS, cc.ex(v))
+        _fail(v, "return (path, capacity) or return None expected")
+    def reccall(cc, call):
+        a = call.args
+        if not (len(a) == 4 and is_name(a[0], G) and is_name(a[2], SINK) and is_name(a[3], VIS)): _fail(call, "dfs_path(G, v, sink, visited) expected")
+        return "gen_dfs f %s %s %s %s" % (G, SINK, cc.ex(a[1]), VIS), VIS
+    rec = dict(name=fn.name, call=reccall)
+    # the loop: for (v, c) in candidates
+    names = c.pairtarget(loop.target)
+    if loop.orelse: _fail(loop, "for-else not supported")
+    pre = body[:li]; post = body[li + 1:]
+    # state of the loop = visited + everything the loop body assigns that is bound before the loop
+    def after_pre(cc):
+        st = [VIS] + [x for x in assigned(loop.body) if x in cc.env and x != VIS and x not in names]
+        tup = "(" + ", ".join(st) + ")"
+        lc = cc.child({names[0]: "Z", names[1]: "Z"})
+        bodytxt = lc.block(list(loop.body), "Some " + tup, None, rec)
+        for x in st: cc.env.setdefault(x, lc.env.get(x))
+        it = cc.ex(loop.iter)
+        txt = ("match fold_left (fun st_ (e_ : Z * Z) => match st_ with None => None | Some %s =>\n%s%s end) %s (Some %s) with\n| None => None\n| Some %s =>\n%s\nend"
+               % (tup, cc.bindpair(names, "e_"), bodytxt, it, tup, tup, cc.block(list(post), "Some (%s, None)" % VIS, ret, None)))
+        return txt
+    # compile pre-statements, then the loop, as one block: emulate by compiling pre with a fall that is produced lazily
+    class Lazy(FlowC): pass
+    def block_pre(cc, stmts):
+        if not stmts: return after_pre(cc)
+        s, rest = stmts[0], stmts[1:]
+        if isinstance(s, ast.If) and not s.orelse and isinstance(s.body[-1], ast.Return):      # early return
+            a = cc.child({})
+            return "if %s then %s\nelse\n%s" % (cc.bx(s.test), a.block(list(s.body), None, ret, None), block_pre(cc, rest))
+        if isinstance(s, ast.Assign) and isinstance(s.targets[0], ast.Name):
+            one = cc.block([s], "@@", ret, None)
+            return one.replace("@@", "") + block_pre(cc, rest)
+        _fail(s, "unsupported statement before the loop")
+    txt = block_pre(c, pre)
+    return ("(* dfs_path (flow.py line %d); `visited` is threaded through as the list of vertices marked 1; outer None = out of fuel *)\n"
+            "Fixpoint gen_dfs (fuel : nat) (%s : graph) (%s %s : Z) (%s : list Z) {struct fuel} : option (list Z * option (list Z * Z)) :=\n"
+            "match fuel with O => None | S f =>\n%s\nend.\n" % (fn.lineno, G, SINK, CUR, VIS, txt))
+
+def tr_ff(fn):
+    ps = [a.arg for a in fn.args.args]
+    if len(ps) != 3: _fail(fn, "ford_fulkerson(G, s, t) expected")
+    G, S, T = ps
+    body = _body(fn)
+    c = FlowC({G: "graph", S: "Z", T: "Z"})
+    out = []; i = 0; lets = ""
+    # leading simple assignments
+    while i < len(body) and isinstance(body[i], ast.Assign):
+        s = body[i]; t, v = s.targets[0], s.value
+        if not isinstance(t, ast.Name): _fail(s, "simple assignment expected")
+        if isinstance(v, ast.Call) and isinstance(v.func, ast.Attribute) and v.func.attr == "deepcopy" and len(v.args) == 1 and is_name(v.args[0], G):
+            c.env[t.id] = "graph"; lets += "let %s := %s in\n" % (t.id, G)
+        elif isinstance(v, ast.Call) and is_name(v.func, "dict") and not v.args:
+            c.env[t.id] = "flow"; lets += "let %s := @nil ((Z * Z) * Z) in\n" % t.id
+        else: _fail(s, "G_f = copy.deepcopy(G) / flow = dict() expected")
+        i += 1
+    if not (i + 2 == len(body) and isinstance(body[i], ast.For) and isinstance(body[i + 1], ast.While)): _fail(fn, "initialisation loop followed by `while True` expected")
+    init, loop = body[i], body[i + 1]
+    st = [x for x in c.env if c.env[x] in ("graph", "flow") and x != G]
+    tup = "(" + ", ".join(st) + ")"; sty = "graph * flowmap"
+    if [c.env[x] for x in st] != ["graph", "flow"]: _fail(fn, "state (residual graph, flow) expected")
+    # for i in G.keys(): for j, _ in G[i]: ...
+    def keys_of(e): return isinstance(e, ast.Call) and isinstance(e.func, ast.Attribute) and e.func.attr == "keys" and is_name(e.func.value, G) and not e.args
+    if not (isinstance(init.target, ast.Name) and keys_of(init.iter) and len(init.body) == 1 and isinstance(init.body[0], ast.For)): _fail(init, "for i in G.keys(): for j, _ in G[i]: expected")
+    I = init.target.id; inner = init.body[0]
+    c1 = c.child({I: "Z"}); c1.sub["item:%s:%s" % (G, I)] = "(snd ka_)"       # G is never stored to: G[i] inside `for i in G.keys()` is the item's value
+    names = c1.pairtarget(inner.target); c2 = c1.child({n: "Z" for n in names})
+    innertxt = c2.block(list(inner.body), tup, None, None)
+    out.append("(* ford_fulkerson (flow.py line %d): residual graph and zero flow *)\nDefinition gen_init (%s : graph) : %s :=\n%s"
+               "fold_left (fun (st_ : %s) (ka_ : Z * adjl) => let '%s := st_ in let %s := fst ka_ in\n"
+               "  fold_left (fun (st_ : %s) (e_ : Z * Z) => let '%s := st_ in %s\n%s) %s %s) %s %s.\n"
+               % (fn.lineno, G, sty, lets, sty, tup, I, sty, tup, c2.bindpair(names, "e_"), innertxt, c1.ex(inner.iter), tup, G, tup))
+    # while True:
+    if not (isinstance(loop.test, ast.Constant) and loop.test.value is True and not loop.orelse): _fail(loop, "while True expected")
+    wb = list(loop.body)
+    if len(wb) != 4: _fail(loop, "four statements expected in the main loop")
+    s1, s2, s3, s4 = wb
+    # p = dfs_path(G_f, s, t, {i: int(i == s) for i in G_f.keys()})
+    ok = (isinstance(s1, ast.Assign) and isinstance(s1.targets[0], ast.Name) and isinstance(s1.value, ast.Call) and is_name(s1.value.func, "dfs_path") and len(s1.value.args) == 4
+          and is_name(s1.value.args[0], st[0]) and isinstance(s1.value.args[3], ast.DictComp))
+    if not ok: _fail(s1, "p = dfs_path(G_f, s, t, {...}) expected")
+    P = s1.targets[0].id; a = s1.value.args; dc = a[3]
+    g = dc.generators[0]
+    ok = (len(dc.generators) == 1 and not g.ifs and isinstance(g.target, ast.Name) and is_name(dc.key, g.target.id) and isinstance(g.iter, ast.Call)
+          and isinstance(g.iter.func, ast.Attribute) and g.iter.func.attr == "keys" and is_name(g.iter.func.value, st[0])
+          and isinstance(dc.value, ast.Call) and is_name(dc.value.func, "int") and len(dc.value.args) == 1 and isinstance(dc.value.args[0], ast.Compare)
+          and len(dc.value.args[0].ops) == 1 and isinstance(dc.value.args[0].ops[0], ast.Eq) and is_name(dc.value.args[0].left, g.target.id)
+          and isinstance(dc.value.args[0].comparators[0], ast.Name))
+    if not ok: _fail(dc, "{i: int(i == s) for i in G_f.keys()} expected")
+    start_marked = c.ex(dc.value.args[0].comparators[0])
+    call = "gen_dfs (length %s + 2) %s %s %s [%s]" % (st[0], st[0], c.ex(a[2]), c.ex(a[1]), start_marked)
+    # if p is None: ... return ...
+    ok = (isinstance(s2, ast.If) and not s2.orelse and isinstance(s2.test, ast.Compare) and isinstance(s2.test.ops[0], ast.Is) and is_name(s2.test.left, P)
+          and isinstance(s2.test.comparators[0], ast.Constant) and s2.test.comparators[0].value is None and isinstance(s2.body[-1], ast.Return))
+    if not ok: _fail(s2, "if p is None: ... return ... expected")
+    # path, c_f_p = p
+    ok = isinstance(s3, ast.Assign) and isinstance(s3.targets[0], ast.Tuple) and is_name(s3.value, P)
+    if not ok: _fail(s3, "path, c_f_p = p expected")
+    PATH, CFP = c.pairtarget(s3.targets[0])
+    # for i in range(len(path) - 1):
+    r = s4.iter if isinstance(s4, ast.For) else None
+    ok = (r is not None and isinstance(s4.target, ast.Name) and isinstance(r, ast.Call) and is_name(r.func, "range") and len(r.args) == 1 and isinstance(r.args[0], ast.BinOp)
+          and isinstance(r.args[0].op, ast.Sub) and _intconst(r.args[0].right) == 1 and isinstance(r.args[0].left, ast.Call) and is_name(r.args[0].left.func, "len")
+          and is_name(r.args[0].left.args[0], PATH))
+    if not ok: _fail(s4, "for i in range(len(path) - 1) expected")
+    c3 = c.child({PATH: "path", CFP: "Z", s4.target.id: "nat"})
+    augtxt = c3.block(list(s4.body), tup, None, None)
+    out.append("(* one augmentation: the loop over consecutive vertices of the path *)\nDefinition gen_augment (%s : list Z) (%s : Z) (st_ : %s) : %s :=\n"
+               "fold_left (fun (st_ : %s) (%s : nat) => let '%s := st_ in\n%s) (seq 0 (length %s - 1)) st_.\n" % (PATH, CFP, sty, sty, sty, s4.target.id, tup, augtxt, PATH))
+    out.append("(* the main loop; the `visited` dict {i: int(i == s)} is the list [s]; dfs_path gets fuel |V| + 2; returns the state at the `return` *)\n"
+               "Fixpoint gen_ff_loop (fuel : nat) (st_ : %s) (%s %s : Z) {struct fuel} : option (%s) :=\n"
+               "match fuel with O => None | S f =>\n let '%s := st_ in\n match %s with\n | None => None\n | Some (_, None) => Some %s\n"
+               " | Some (_, Some (%s, %s)) => gen_ff_loop f (gen_augment %s %s %s) %s %s\n end\nend.\n" % (sty, S, T, sty, tup, call, tup, PATH, CFP, PATH, CFP, tup, S, T))
+    return "\n".join(out)
+
+def translate_flow(repo):
+    src = open(os.path.join(repo, "socialchoicekit", "flow.py")).read()
+    mod = ast.parse(src)
+    hdr = ["(* GENERATED by harness/translate.py from ford_fulkerson and dfs_path (flow.py). Do not edit. *)",
+           "From Coq Require Import ZArith List Bool.", "Import ListNotations.", "From SCK Require Import FlowModel.", "Local Open Scope Z_scope.", ""]
+    return "\n".join(hdr) + tr_dfs(_find(mod.body, ast.FunctionDef, "dfs_path")) + "\n" + tr_ff(_find(mod.body, ast.FunctionDef, "ford_fulkerson"))
+
+
+# ---------------------------------------------------------------------------------------------------------------------
+# second part: the packaging of ford_fulkerson's result, convert_bipartite_graph_to_flow_network and the read-off of
+# maximum_cardinality_matching_bipartite
+# ---------------------------------------------------------------------------------------------------------------------
+PRELUDE2 = '''(* dict insertion on an association list (replace the value of an existing key in place, else append) *)
+Fixpoint dset (G : graph) (k : Z) (a : adjl) : graph :=
+  match G with [] => [(k, a)] | (k0, a0) :: r => if k0 =? k then (k0, a) :: r else (k0, a0) :: dset r k a end.
+'''
+
+def tr_ff_result(fn):
+    """if p is None: flow_final = dict(); for i in G.keys(): for j, _ in G[i]: flow_final[(i, j)] = flow[(i, j)]; return flow_final, reachable_vertices(G_f, s)"""
+    G, S, T = [a.arg for a in fn.args.args]
+    loop = [s for s in _body(fn) if isinstance(s, ast.While)][0]
+    blk = list(loop.body[1].body)
+    if len(blk) != 3: _fail(loop.body[1], "three statements expected before the return")
+    s1, s2, s3 = blk
+    if not (isinstance(s1, ast.Assign) and isinstance(s1.targets[0], ast.Name) and isinstance(s1.value, ast.Call) and is_name(s1.value.func, "dict") and not s1.value.args):
+        _fail(s1, "flow_final = dict() expected")
+    FF = s1.targets[0].id
+    c = FlowC({G: "graph", S: "Z", T: "Z", "flow": "flow", FF: "flow"})
+    flowname = [n.targets[0].id for n in _body(fn) if isinstance(n, ast.Assign) and isinstance(n.value, ast.Call) and is_name(n.value.func, "dict")][0]
+    gfname = [n.targets[0].id for n in _body(fn) if isinstance(n, ast.Assign) and isinstance(n.value, ast.Call) and isinstance(n.value.func, ast.Attribute) and n.value.func.attr == "deepcopy"][0]
+    c.env[flowname] = "flow"
+    def keys_of(e): return isinstance(e, ast.Call) and isinstance(e.func, ast.Attribute) and e.func.attr == "keys" and is_name(e.func.value, G) and not e.args
+    if not (isinstance(s2, ast.For) and isinstance(s2.target, ast.Name) and keys_of(s2.iter) and len(s2.body) == 1 and isinstance(s2.body[0], ast.For)): _fail(s2, "for i in G.keys(): for j, _ in G[i]: expected")
+    I = s2.target.id; inner = s2.body[0]
+    c1 = c.child({I: "Z"}); c1.sub["item:%s:%s" % (G, I)] = "(snd ka_)"
+    names = c1.pairtarget(inner.target); c2 = c1.child({n: "Z" for n in names})
+    innertxt = c2.block(list(inner.body), FF, None, None)
+    r = s3.value if isinstance(s3, ast.Return) else None
+    ok = (r is not None and isinstance(r, ast.Tuple) and len(r.elts) == 2 and is_name(r.elts[0], FF) and isinstance(r.elts[1], ast.Call) and is_name(r.elts[1].func, "reachable_vertices")
+          and len(r.elts[1].args) == 2 and is_name(r.elts[1].args[0], gfname) and is_name(r.elts[1].args[1], S))
+    if not ok: _fail(s3, "return flow_final, reachable_vertices(G_f, s) expected")
+    return ("(* the flow reported by ford_fulkerson: the final values on the ORIGINAL edges, in dict insertion order *)\n"
+            "Definition gen_flow_final (%s : graph) (%s : flowmap) : flowmap :=\nlet %s := @nil ((Z * Z) * Z) in\n"
+            "fold_left (fun (%s : flowmap) (ka_ : Z * adjl) => let %s := fst ka_ in\n  fold_left (fun (%s : flowmap) (e_ : Z * Z) => %s\n%s) %s %s) %s %s.\n"
+            % (G, flowname, FF, FF, I, FF, c2.bindpair(names, "e_"), innertxt, c1.ex(inner.iter), FF, G, FF))
+
+def tr_net(fn):
+    ps = [a.arg for a in fn.args.args]
+    if len(ps) != 3: _fail(fn, "convert_bipartite_graph_to_flow_network(G, X, Y) expected")
+    G, X, Y = ps
+    body = _body(fn)
+    if not (isinstance(body[0], ast.Assign) and isinstance(body[0].targets[0], ast.Name) and isinstance(body[0].value, ast.Call) and is_name(body[0].value.func, "dict") and not body[0].value.args):
+        _fail(body[0], "network = dict() expected")
+    NET = body[0].targets[0].id
+    if not (isinstance(body[-1], ast.Return) and is_name(body[-1].value, NET)): _fail(body[-1], "return network expected")
+    def adjlit(e, var):      # [(y, 1) for y in G.get(v, [])]  /  [(x, 1) for x in X]  /  [(-2, 1)]  /  []
+        if isinstance(e, ast.List):
+            out = []
+            for el in e.elts:
+                if not (isinstance(el, ast.Tuple) and len(el.elts) == 2 and all(_intconst(x) is not None for x in el.elts)): _fail(e, "list of constant pairs expected")
+                out.append("(%s, %s)" % tuple(("(%d)" % _intconst(x)) if _intconst(x) < 0 else str(_intconst(x)) for x in el.elts))
+            return "[" + "; ".join(out) + "]"
+        if isinstance(e, ast.ListComp) and len(e.generators) == 1 and not e.generators[0].ifs and isinstance(e.generators[0].target, ast.Name):
+            g = e.generators[0]; y = g.target.id
+            if not (isinstance(e.elt, ast.Tuple) and len(e.elt.elts) == 2 and is_name(e.elt.elts[0], y) and _intconst(e.elt.elts[1]) is not None): _fail(e, "[(y, c) for y in ...] expected")
+            it = g.iter
+            if is_name(it, X): src = X
+            elif (isinstance(it, ast.Call) and isinstance(it.func, ast.Attribute) and it.func.attr == "get" and is_name(it.func.value, G) and len(it.args) == 2 and var is not None
+                  and is_name(it.args[0], var) and isinstance(it.args[1], ast.List) and not it.args[1].elts): src = "(adj %s %s)" % (G, var)
+            else: _fail(it, "X or G.get(v, []) expected")
+            return "(map (fun %s : Z => (%s, %d)) %s)" % (y, y, _intconst(e.elt.elts[1]), src)
+        _fail(e, "unsupported adjacency expression")
+    txt = "let %s := @nil (Z * adjl) in\n" % NET
+    for st in body[1:-1]:
+        if isinstance(st, ast.For) and isinstance(st.target, ast.Name) and isinstance(st.iter, ast.Name) and st.iter.id in (X, Y) and len(st.body) == 1 and not st.orelse:
+            v = st.target.id; a = st.body[0]
+            if not (isinstance(a, ast.Assign) and isinstance(a.targets[0], ast.Subscript) and is_name(a.targets[0].value, NET) and is_name(a.targets[0].slice, v)): _fail(a, "network[v] = ... expected")
+            txt += "let %s := fold_left (fun (%s : graph) (%s : Z) => dset %s %s %s) %s %s in\n" % (NET, NET, v, NET, v, adjlit(a.value, v), st.iter.id, NET)
+        elif isinstance(st, ast.Assign) and isinstance(st.targets[0], ast.Subscript) and is_name(st.targets[0].value, NET) and _intconst(st.targets[0].slice) is not None:
+            txt += "let %s := dset %s (%d) %s in\n" % (NET, NET, _intconst(st.targets[0].slice), adjlit(st.value, None))
+        else: _fail(st, "unsupported statement in convert_bipartite_graph_to_flow_network")
+    return ("(* convert_bipartite_graph_to_flow_network (flow.py line %d) *)\nDefinition gen_net (%s : bgraph) (%s %s : list Z) : graph :=\n%s%s.\n" % (fn.lineno, G, X, Y, txt, NET))
+
+def tr_readoff(fn):
+    ps = [a.arg for a in fn.args.args]
+    G, X, Y = ps
+    body = _body(fn)
+    # check_bipartite_graph(G, X, Y); network = convert...(G, X, Y); flow, _ = ford_fulkerson(network, -1, -2); matchings = []; for x in X: ...; return matchings
+    if len(body) != 6: _fail(fn, "six statements expected in maximum_cardinality_matching_bipartite")
+    s1, s2, s3, s4, s5, s6 = body
+    ok = isinstance(s1, ast.Expr) and isinstance(s1.value, ast.Call) and is_name(s1.value.func, "check_bipartite_graph") and [getattr(a, "id", None) for a in s1.value.args] == [G, X, Y]
+    if not ok: _fail(s1, "check_bipartite_graph(G, X, Y) expected")
+    ok = (isinstance(s2, ast.Assign) and isinstance(s2.targets[0], ast.Name) and isinstance(s2.value, ast.Call) and is_name(s2.value.func, "convert_bipartite_graph_to_flow_network")
+          and [getattr(a, "id", None) for a in s2.value.args] == [G, X, Y])
+    if not ok: _fail(s2, "network = convert_bipartite_graph_to_flow_network(G, X, Y) expected")
+    NET = s2.targets[0].id
+    ok = (isinstance(s3, ast.Assign) and isinstance(s3.targets[0], ast.Tuple) and len(s3.targets[0].elts) == 2 and isinstance(s3.targets[0].elts[0], ast.Name)
+          and isinstance(s3.value, ast.Call) and is_name(s3.value.func, "ford_fulkerson") and len(s3.value.args) == 3 and is_name(s3.value.args[0], NET)
+          and _intconst(s3.value.args[1]) is not None and _intconst(s3.value.args[2]) is not None)
+    if not ok: _fail(s3, "flow, _ = ford_fulkerson(network, s, t) expected")
+    FL = s3.targets[0].elts[0].id; src, snk = _intconst(s3.value.args[1]), _intconst(s3.value.args[2])
+    ok = isinstance(s4, ast.Assign) and isinstance(s4.targets[0], ast.Name) and isinstance(s4.value, ast.List) and not s4.value.elts
+    if not ok: _fail(s4, "matchings = [] expected")
+    MS = s4.targets[0].id
+    if not (isinstance(s6, ast.Return) and is_name(s6.value, MS)): _fail(s6, "return matchings expected")
+    if not (isinstance(s5, ast.For) and isinstance(s5.target, ast.Name) and is_name(s5.iter, X) and len(s5.body) == 3): _fail(s5, "for x in X: (three statements) expected")
+    x = s5.target.id; b1, b2, b3 = s5.body
+    def Gx(e): return isinstance(e, ast.Subscript) and is_name(e.value, G) and is_name(e.slice, x)
+    ok = (isinstance(b1, ast.If) and not b1.orelse and len(b1.body) == 1 and isinstance(b1.body[0], ast.Continue) and isinstance(b1.test, ast.Compare) and isinstance(b1.test.ops[0], ast.Eq)
+          and _intconst(b1.test.comparators[0]) == 0 and isinstance(b1.test.left, ast.Call) and is_name(b1.test.left.func, "len") and Gx(b1.test.left.args[0]))
+    if not ok: _fail(b1, "if len(G[x]) == 0: continue expected")
+    # matched_y = G[x][np.argmax(np.array([flow[(x, y)] for y in G[x]]))]
+    v = b2.value if isinstance(b2, ast.Assign) and isinstance(b2.targets[0], ast.Name) else None
+    ok = v is not None and isinstance(v, ast.Subscript) and Gx(v.value) and isinstance(v.slice, ast.Call) and _is_np(v.slice.func, "argmax") and len(v.slice.args) == 1
+    if ok:
+        arr = v.slice.args[0]
+        ok = isinstance(arr, ast.Call) and _is_np(arr.func, "array") and len(arr.args) == 1 and isinstance(arr.args[0], ast.ListComp)
+    if ok:
+        lc = arr.args[0]; g = lc.generators[0]
+        ok = (len(lc.generators) == 1 and not g.ifs and isinstance(g.target, ast.Name) and Gx(g.iter) and isinstance(lc.elt, ast.Subscript) and is_name(lc.elt.value, FL)
+              and isinstance(lc.elt.slice, ast.Tuple) and is_name(lc.elt.slice.elts[0], x) and is_name(lc.elt.slice.elts[1], g.target.id))
+    if not ok: _fail(b2, "matched_y = G[x][np.argmax(np.array([flow[(x, y)] for y in G[x]]))] expected")
+    MY = b2.targets[0].id; y = g.target.id
+    t = b3.test if isinstance(b3, ast.If) and not b3.orelse and len(b3.body) == 1 else None
+    ok = (t is not None and isinstance(t, ast.Compare) and isinstance(t.ops[0], ast.Eq) and _intconst(t.comparators[0]) is not None and isinstance(t.left, ast.Subscript) and is_name(t.left.value, FL)
+          and isinstance(t.left.slice, ast.Tuple) and is_name(t.left.slice.elts[0], x) and is_name(t.left.slice.elts[1], MY))
+    if ok:
+        ap = b3.body[0]
+        ok = (isinstance(ap, ast.Expr) and isinstance(ap.value, ast.Call) and isinstance(ap.value.func, ast.Attribute) and ap.value.func.attr == "append" and is_name(ap.value.func.value, MS)
+              and isinstance(ap.value.args[0], ast.Tuple) and is_name(ap.value.args[0].elts[0], x) and is_name(ap.value.args[0].elts[1], MY))
+    if not ok: _fail(b3, "if flow[x, matched_y] == 1: matchings.append((x, matched_y)) expected")
+    one = _intconst(t.comparators[0])
+    return ("(* maximum_cardinality_matching_bipartite (flow.py line %d): the read-off of the matching from the flow; np.argmax = index of the first maximum *)\n"
+            "Definition gen_read_off (%s : bgraph) (%s : list Z) (%s : flowmap) : list (Z * Z) :=\n"
+            "fold_left (fun (%s : list (Z * Z)) (%s : Z) =>\n  if (length (adj %s %s) =? 0)%%nat then %s else\n"
+            "  let %s := nth (argmax_first (map (fun %s : Z => fget %s (%s, %s)) (adj %s %s))) (adj %s %s) 0 in\n"
+            "  if fget %s (%s, %s) =? %d then %s ++ [(%s, %s)] else %s) %s [].\n"
+            "Definition gen_max_matching (fuel : nat) (%s : bgraph) (%s %s : list Z) : option (list (Z * Z)) :=\n"
+            "  match gen_ff_loop fuel (gen_init (gen_net %s %s %s)) (%d) (%d) with None => None | Some (_, %s) => Some (gen_read_off %s %s %s) end.\n"
+            % (fn.lineno, G, X, FL, MS, x, G, x, MS, MY, y, FL, x, y, G, x, G, x, FL, x, MY, one, MS, x, MY, MS, X,
+               G, X, Y, G, X, Y, src, snk, FL, G, X, FL))
+
+def translate_flow2(repo):
+    src = open(os.path.join(repo, "socialchoicekit", "flow.py")).read()
+    mod = ast.parse(src)
+    hdr = ["(* GENERATED by harness/translate.py from flow.py (result packaging, bipartite conversion and read-off). Do not edit. *)",
+           "From Coq Require Import ZArith List Bool.", "Import ListNotations.", "From SCK Require Import FlowModel BipModel.", "From SCKGen Require Import FlowGen.", "Local Open Scope Z_scope.", "", PRELUDE2]
+    return "\n".join(hdr) + "\n".join([tr_ff_result(_find(mod.body, ast.FunctionDef, "ford_fulkerson")), tr_net(_find(mod.body, ast.FunctionDef, "convert_bipartite_graph_to_flow_network")),
+                                       tr_readoff(_find(mod.body, ast.FunctionDef, "maximum_cardinality_matching_bipartite"))])
